@@ -16,6 +16,10 @@ MANIFEST = dict(
 
 def run(chk, tier):
     loop_check.run(chk, tier, 'C09')
+    # the screen-level clauses (the last screen closes; run() refuses an empty stack; exit from callbacks at any modal
+    # depth): whole application sessions, model <-> implementation, and the same acceptor chk_C09 on their traces
+    import screen_check
+    screen_check.run(chk, tier, "C09")
 
 
 def replay(path):
